@@ -14,6 +14,9 @@ CLAIMS = {
  "C02": dict(tech="TLA+ models of tumbling/sliding windows with watermark, allowed lateness and late updates model-checked by TLC; behaviours replayed with forced schedules on the real engine; traces validated by TLC against TraceWin (no early firing, late-only discard, re-delivery superset, closure after allowance, far-future guard)",
              text="As C01, for the watermark clauses: no-early-firing and re-delivery rules are invariants of the model and guards of the trace monitor; the processed-watermark rule uses the trigger-pass events recorded through hooks. One known finding (LateUpdateOvertakes) is admitted by a narrowly shaped deviation.",
              ref="DESIGN.md §4 C02", note=WIN_NOTE + " A late row's re-delivery is required only when the first delivery was logged before the row was emitted; closure is judged by completed trigger passes."),
+ "C10": dict(tech="TLA+ model of the event-time session window (one live session per key, Add extends without gap test, collect-under-lock / send-after-unlock) model-checked by TLC with the C10 contract as invariants (strict contract fails, contract minus the two recorded deviations holds); behaviours replayed with forced schedules on the real engine; traces validated by TLC against TraceSession",
+             text="As C01 for session windows. Two known findings (SessionMergeAcrossGap, SessionStartFirstArrival) are admitted only in their exact shape; each event once, own key, window_end, not-before-watermark, nothing lost and no split below the timeout are still enforced on every trace.",
+             ref="DESIGN.md §4 C10", note=WIN_NOTE),
  "C08": dict(tech="TLA+ model of the event-time sliding window (cursor advance-before-fire, eviction, late registration after send) model-checked by TLC; behaviours replayed with forced schedules on the real engine; traces validated by TLC against TraceWin",
              text="As C01 for sliding windows: slide alignment, every on-time row in every reportable covering interval, first firings once and in increasing order.",
              ref="DESIGN.md §4 C08", note=WIN_NOTE),
